@@ -241,7 +241,9 @@ def exact_type_choice_lookup(ctx: Ctx) -> None:
     member = [(t, _membership(fp, t)) for t in g.nodes if t.kind == "test"]
     exact = [t for t, m in member if m is not None and m[1] == "_.types" and all(isinstance(v, ast.Call) and call_name_of(v) == "type" for v in m[0])]
     # the return is taken when the exact-type membership holds: a necessary condition of the return, or one of the alternatives of an `or`
-    ok = bool(exact) and any(g.only_if(r.id, t.id, True) or any(tn.id == t.id and pol for _x, pol, tn in entry_conditions(fp, r)) for r in rets for t in exact)
+    # (the same iteration: loop headers are not crossed; the decision may be carried by the result slot of an inlined predicate)
+    heads = [n.id for n in g.nodes if n.kind == "for"]
+    ok = bool(exact) and any(r.id in g.reachable([m for m, lab in g.succ[t.id] if lab == "true"], blocked=heads) for r in rets for t in exact)
     ctx.ob("find_primitive_choice returns a choice when type(value) (or of the first token) is a member of element.types", ok, at=fp, construct="primitive type membership", msg="exact type shortcut changed")
     skip_ok = bool(rets) and all({"_.any_type", "_.clazz"} <= dep_texts(fp, r, False) for r in rets)
     tok_ok = bool(rets) and all(any(("_.tokens" in t and "!=" in t and not pol) or ("_.tokens" in t and "==" in t and "!=" not in t and pol) for t, pol, _ in control_deps(fp, r)) for r in rets)
